@@ -82,6 +82,8 @@ TYPES = {
         ('RHexundump', ['bytes', 'N']),
         ('RCops', [L('cop')]),
         ('RLazy', ['con', KW, 'bytes', 'N', L('nat')]),
+        ('RCParse', ['con', KW, 'bytes', 'N']),
+        ('RCBuild', ['con', 'val', KW]),
     ],
     'lout': [('LVal', ['val', 'Z']), ('LErr', ['err'])],
     'step': [('SKey', [NAME]), ('SIdx', ['nat'])],
